@@ -164,8 +164,12 @@ impl BuildJob<'_> {
             sf.save(&mut ptx)?;
             // Fall through and treat it the same as a static file.
         }
+        // (a symbolic link to a directory is a file of the user like any
+        // other; only a real directory may be filled in by a rule)
         if Path::new(&t).exists()
-            && !Path::new(&t).join(".").is_dir()
+            && !Path::new(&t)
+                .symlink_metadata()
+                .map_or(false, |m| m.is_dir())
             && (sf.is_override || !sf.is_generated())
         {
             // an existing source file that was not generated by us.
